@@ -63,7 +63,11 @@ func spine(r *R) []layerInfo {
 		}
 		var ts [][2]string
 		for i := 0; i+1 < len(r.In); i += 2 {
-			ts = append(ts, [2]string{r.In[i], r.In[i+1]})
+			v := r.In[i+1]
+			if nin(r, i/2) == 2 {
+				v = "" // a nil tag value has the empty string form
+			}
+			ts = append(ts, [2]string{r.In[i], v})
 		}
 		return append([]layerInfo{{tags: ts, isTags: true}}, kid()...)
 	case "assertion":
